@@ -7,14 +7,14 @@ from vf.gens import corpus, grammar, mutate
 
 PROPERTY = 'C02'
 RULE = ('cases = (dialect, text): coverage-guided byte-level campaign (atheris/libFuzzer, dictionary of all lexemes, 16 processes) + corpus statements, random grammar derivations, single/double token mutations of '
-        'both, random lexeme sequences, SQL-flavoured and arbitrary Unicode text, pump inputs (opening lexeme + a 1-3 character fragment repeated 30-70 times; the parse runs under a 30 s watchdog) + bounded-exhaustive: every production of each live grammar with every alternative of each of its nonterminals; non-trivial = not verbatim from the '
+        'both, random lexeme sequences, SQL-flavoured and arbitrary Unicode text, pump inputs (opening lexeme + a 1-3 character fragment repeated 30-70 times; the parse runs under a 30 s watchdog) + bounded-exhaustive: every production of each live grammar with every alternative of each of its nonterminals; keywords of those sentences re-spelled with the non-ASCII letters that re.IGNORECASE equates with i / s / k (one per token type x neighbours x variant); non-trivial = not verbatim from the '
         'corpus and lexes completely (reaches the parser); distinct by (dialect, text)')
 ASSUMPTIONS = ['termination is observed under a 30 s per-case watchdog, not proved',
                'RecursionError is judged only for inputs <= 2000 characters with parenthesis depth <= 50']
 FLOORS = {'quick': {'accepted': 2000, 'rejected-at-token': 3000, 'rejected-at-end': 300, 'lexerror': 300,
-                    '__nontrivial__': 8000},
+                    '__nontrivial__': 8000, 'origin:unicode-case': 4000, 'origin:pairs': 8000},
           'thorough': {'accepted': 20000, 'rejected-at-token': 30000, 'rejected-at-end': 3000, 'lexerror': 3000,
-                       '__nontrivial__': 80000}}
+                       '__nontrivial__': 80000, 'origin:unicode-case': 4000, 'origin:pairs': 8000}}
 N = {'quick': 1500, 'thorough': 20000}
 WATCHDOG_S = 30
 
@@ -45,6 +45,7 @@ def prepare(tier):
         _TOK[d] = bases
     for x in corpus.accepted() + corpus.rejected():
         _CORPUS.add((x['dialect'], x['sql']))
+    unicode_case_cases()        # built once, before the fork
 
 
 def site_of(exc):
@@ -173,6 +174,50 @@ def cases(draw, pool='lite'):
     return {'dialect': d, 'sql': sql, 'origin': mode}
 
 
+UC_VARIANTS = [('dotted-I', str.maketrans({'i': '\u0130', 'I': '\u0130'})), ('dotless-i', str.maketrans({'i': '\u0131', 'I': '\u0131'})),
+               ('long-s', str.maketrans({'s': '\u017f', 'S': '\u017f'})), ('kelvin', str.maketrans({'k': '\u212a', 'K': '\u212a'}))]
+_UC = []
+
+
+def unicode_case_cases():
+    """For every keyword occurrence (token whose text is a plain ASCII word and whose type is not ID) in the production-pair
+    sentences: the sentence with that one keyword re-spelled; one representative per (dialect, token type, previous and next
+    token type, variant).  Only spellings the lexer still reads as the same token type are kept."""
+    if _UC:
+        return _UC
+    import re as _re
+    seen = set()
+    for d in corpus.DIALECTS:
+        lexcls = _LEX[d]
+        for label, toks in grammar.get(d).pair_sentences():
+            text = ' '.join(toks)
+            try:
+                lexed = list(lexcls().tokenize(text))
+            except Exception:
+                continue
+            for j, t in enumerate(lexed):
+                src = text[t.index:t.end] if getattr(t, 'end', None) else str(t.value)
+                if t.type in ('ID', 'QUOTE_STRING', 'DQUOTE_STRING', 'INTEGER', 'FLOAT') or not _re.fullmatch(r'[A-Za-z_]+', src or ''):
+                    continue
+                for vname, table in UC_VARIANTS:
+                    new = src.translate(table)
+                    if new == src:
+                        continue
+                    key = (d, t.type, lexed[j - 1].type if j else '^', lexed[j + 1].type if j + 1 < len(lexed) else '$', vname)
+                    if key in seen:
+                        continue
+                    sql = text[:t.index] + new + text[t.index + len(src):]
+                    try:
+                        again = list(lexcls().tokenize(sql))
+                    except Exception:
+                        continue
+                    if len(again) != len(lexed) or again[j].type != t.type:
+                        continue            # this spelling is not read as the keyword
+                    seen.add(key)
+                    _UC.append({'dialect': d, 'sql': sql, 'origin': 'unicode-case'})
+    return _UC
+
+
 FUZZ_RUNS = {'quick': 15000, 'thorough': 100000}
 
 
@@ -239,4 +284,16 @@ def run_shard(col, k, nshards, tier, seed):
             c = {'dialect': d, 'sql': ' '.join(toks), 'origin': 'pairs'}
             for rec in judge(c, col):
                 col.fail(rec, c)
+    # bounded: keywords spelled with the non-ASCII letters that match ASCII letters under re.IGNORECASE (the lexers' flag):
+    # U+0130 / U+0131 for i, U+017F for s, U+212A for k.  The token is the keyword, its text is not what str.upper() /
+    # .lower() of an ASCII spelling gives -- grammar actions that look the text up meet a spelling they do not know.
+    nuc = 0
+    for i, c in enumerate(unicode_case_cases()):
+        nuc += 1
+        if i % nshards == k:
+            for rec in judge(c, col):
+                col.fail(rec, c)
+    if k == 0:
+        col.exhaustive_parts.append(f'Unicode-case keyword spellings: {nuc} statements (every keyword token with i / s / k of the '
+                                    'production-pair sentences, per dialect x token type x neighbouring token types x variant)')
     hyp.explore(col, cases(), judge, N[tier], seed)
